@@ -168,6 +168,7 @@ func runWorker(t *testing.T) {
 	maxViol := envInt("VERIF_MAX_VIOL", 3)
 
 	debug := os.Getenv("VERIF_DEBUG") != ""
+	progress := os.Getenv("VERIF_PROGRESS")
 	completed := false
 	defer func() {
 		if !completed {
@@ -188,6 +189,13 @@ func runWorker(t *testing.T) {
 		sc := p.Gen(seed, tier)
 		if debug {
 			fmt.Fprintf(os.Stderr, "DEBUG run %d seed %d start\n", i, seed)
+		}
+		if progress != "" {
+			// if the code under test kills the process (e.g. "fatal error: concurrent map writes"), the driver
+			// turns this file into the replay file of a crash violation
+			sb, _ := json.Marshal(sc)
+			pb, _ := json.Marshal(replayFile{Property: id, Oracle: strings.ToLower(id) + ".crash", Sig: "process killed by a fatal runtime error", Seed: seed, Scenario: sb})
+			os.WriteFile(progress, pb, 0o644)
 		}
 		o := p.Exec(t, sc, false)
 		if debug {
@@ -338,6 +346,16 @@ func replay(t *testing.T, p *Prop, path string) {
 		os.Exit(2)
 	}
 	o := p.Exec(t, sc, os.Getenv("VERIF_VERBOSE") != "")
+	if strings.HasSuffix(rf.Oracle, ".crash") {
+		// the original run killed its process; if this loop survives, the crash did not reproduce
+		for i := 0; i < 60; i++ {
+			sc2 := p.New()
+			json.Unmarshal(rf.Scenario, sc2)
+			p.Exec(t, sc2, false)
+		}
+		fmt.Printf("REPLAY-OK property=%s crash did not reproduce in 60 repetitions\n", p.ID)
+		return
+	}
 	if strings.HasSuffix(rf.Oracle, ".race") || o.FreeRunning || p.EngineB {
 		// A race report depends on which of the schedules admitted by the coarse (simulated-time)
 		// schedule the OS threads take: repeat the scenario until the detector reports the pair again.
